@@ -196,6 +196,17 @@ PROPERTIES = {
         ],
         "targets": [{"name": "c17_sampling", "src": "c17_sampling.cpp", "mode": "asan", "rapidcheck": True, "flags": ['-DVERIF_TARGET_NAME="c17_sampling"'], "subtargets": ["sample", "resample", "affine"]}],
     },
+    "C19": {
+        "level": "exploration",
+        "assumptions": [
+            "'divided by the bin width' is C++ integer division of the channel value (truncation towards zero for negative channels)",
+            "masks have exactly the view's dimensions; limit boxes are representable in the histogram's key types",
+            "dense pre-fill is exercised for 1-D keys inside an explicit box of at most 301 keys (the library creates one bin per key; for 16/32-bit key types the defaulted box is the whole type range); empty pre-filled bins are not bins 'that were counted' and may exist on either side",
+            "sub_histogram over a key range is exercised with one selected axis (the library compares multi-axis ranges lexicographically, which the statement does not settle)",
+            "normalize is exercised on histograms with a positive total; the std fillers are compared on gray views and through the library's own gray conversion for rgb8",
+        ],
+        "targets": [{"name": "c19_hist", "src": "c19_histogram.cpp", "mode": "asan", "rapidcheck": True, "flags": ['-DVERIF_TARGET_NAME="c19_hist"'], "subtargets": ["history", "std"]}],
+    },
     "C13": {
         "level": "exploration",
         "assumptions": [
